@@ -322,6 +322,7 @@ def h_tree(B, tree, kind, cplx, metric=False):
         ref = ref_eval(tree, {k: [Dual(v, d) for v, d in zip(xs[k], dxs[k])] for k in keys}, consts, B)
         rv = np.array([u.v for u in ref], dtype=object if B.mode == "sym" else None)
         rd = np.array([u.d for u in ref], dtype=object if B.mode == "sym" else None)
+        n_side = len(sc.cur().side) if B.mode == "sym" else 0
         with B.setup():
             op = build(tree, dom, consts)
         if kind == "single":
@@ -346,6 +347,29 @@ def h_tree(B, tree, kind, cplx, metric=False):
             B.eq("Re<y,J dx> == Re<J^H y,dx> (anti-linear part present)", lhs.real, rhs.real)
         else:
             B.eq("<y,J dx> == <J^H y,dx>", lhs, rhs)
+        _defined(B, n_side, [flat_of(plain), flat_of(jdx)])
+
+
+def _defined(B, n_side, results):
+    """the code under test must be defined wherever the documented function is: every division / root / logarithm it
+    performed (definedness side conditions recorded by the engine after the reference was evaluated) has to be implied
+    by the documented validity range.  Replay: the float results must be finite."""
+    label = "value and Jacobian are defined (finite) on the whole documented range"
+    if B.mode != "sym":
+        ok = all(bool(np.all(np.isfinite(np.asarray(r, dtype=complex)))) for r in results)
+        B.is_true(label, ok)
+        return
+    import z3
+    ctx = sc.cur()
+    new = list(ctx.side[n_side:])
+    if not new:
+        B.is_true(label, True)
+        return
+    ctx.side = ctx.side[:n_side]
+    try:
+        B.holds(label, sc.SB(z3.And(*new)))
+    finally:
+        ctx.side = ctx.side + new
 
 
 def _ref_einsum(subscripts, arrays):
